@@ -571,8 +571,8 @@ Section WithWorld.
                               then Panic "execution.rs:compute_fold folded_contexts.insert_or_error"
                               else
                                 let c1 := set_folded_contexts c (folded_contexts c ++ [(fo_eid h, fold_elements)]) in
-                                do imp <- foldM (fun m t => expect_some "execution.rs:compute_fold imported_tags.remove(..).unwrap()"
-                                                               (remove_ref t m)) (fo_imported h) (imported_tags c1);
+                                let imp := fold_left (fun m t => match remove_ref t m with Some m' => m' | None => m end)
+                                                     (fo_imported h) (imported_tags c1) in
                                 Ok (Some (set_imported c1 imp))
                           end) cs2;
                (* post-fold filters *)
@@ -580,7 +580,7 @@ Section WithWorld.
                           do cs' <- mapM (fun c => do tv <- fold_count_value (fo_eid h) c;
                                                    match tv with
                                                    | TSome v => Ok (push_value c v)
-                                                   | TNone => Panic "execution.rs:apply_fold_specific_filter unreachable (fold did not exist)"
+                                                   | TNone => Ok (push_value c Null)   (* fold inside a missing optional: placeholder, the filter passes *)
                                                    end) cs;
                           filter_stage vs ss (fo_from h) (v_type from) (pf_op pf) (pf_arg pf) cs')
                         (fo_post h) cs3;
